@@ -44,7 +44,7 @@ theorem solveOuter_succ (n m rs K : ℕ) (hm : 0 < m) (hK : K ≤ m) (Q R : ℕ 
     (tol : α) (f k : ℕ) (hk : k < K) (x : ℕ → α) :
     solveOuter n m K 0 Q R b tol (f + 1) (k + 1) ((rs + (k + 1)) % m) x =
       solveOuter n m K 0 Q R b tol f k ((rs + k) % m) (fun j => if j = k then
-        (if |R k ((rs + k) % m)| < tol then 0 else
+        (if |R k ((rs + k) % m)| ≤ tol then 0 else
           ((∑ j ∈ range n, Q j k * b j) - ∑ i ∈ Ico (k + 1) K, R k ((rs + i) % m) * x i) /
             R k ((rs + k) % m)) else x j) := by
   rw [solveOuter]
@@ -65,9 +65,9 @@ theorem solveOuter_spec (n m rs K : ℕ) (hm : 0 < m) (hK : K ≤ m) (Q R : ℕ 
     ∀ fuel zb (x : ℕ → α), zb ≤ K → zb < fuel →
       (∀ k, zb ≤ k → solveOuter n m K 0 Q R b tol fuel zb ((rs + zb) % m) x k = x k) ∧
       ∀ r < zb,
-        (|R r ((rs + r) % m)| < tol →
+        (|R r ((rs + r) % m)| ≤ tol →
           solveOuter n m K 0 Q R b tol fuel zb ((rs + zb) % m) x r = 0) ∧
-        (¬ |R r ((rs + r) % m)| < tol → R r ((rs + r) % m) ≠ 0 →
+        (¬ |R r ((rs + r) % m)| ≤ tol → R r ((rs + r) % m) ≠ 0 →
           R r ((rs + r) % m) * solveOuter n m K 0 Q R b tol fuel zb ((rs + zb) % m) x r +
             ∑ k ∈ Ico (r + 1) K,
               R r ((rs + k) % m) * solveOuter n m K 0 Q R b tol fuel zb ((rs + zb) % m) x k =
@@ -138,8 +138,8 @@ theorem solveCol_eq (s : LMQR α) (h : RingInv s) (b x0 : ℕ → α) (tol : α)
 theorem solveCol_backsubst (s : LMQR α) (h : RingInv s) (b x0 : ℕ → α) (tol : α) :
     (∀ k, s.qIdx ≤ k → s.solveCol b x0 tol k = x0 k) ∧
     ∀ r < s.qIdx,
-      (|s.getR r r| < tol → s.solveCol b x0 tol r = 0) ∧
-      (¬ |s.getR r r| < tol → s.getR r r ≠ 0 →
+      (|s.getR r r| ≤ tol → s.solveCol b x0 tol r = 0) ∧
+      (¬ |s.getR r r| ≤ tol → s.getR r r ≠ 0 →
         ∑ k ∈ range s.qIdx, s.getR r k * s.solveCol b x0 tol k =
           ∑ j ∈ range s.n, s.Q.get j r * b j) := by
   rw [solveCol_eq s h]
@@ -314,7 +314,7 @@ theorem ls_unique (n K : ℕ) (Q Ru A : ℕ → ℕ → α)
     and are nonzero, `solve_col` returns a least-squares minimiser of ‖A z − b‖. -/
 theorem solveCol_ls (s : LMQR α) (h : RingInv s) (A : ℕ → ℕ → α) (hA : Represents s A)
     (hO : Orth s) (b x0 : ℕ → α) (tol : α)
-    (hp : ∀ r < s.qIdx, ¬ |s.getR r r| < tol ∧ s.getR r r ≠ 0) :
+    (hp : ∀ r < s.qIdx, ¬ |s.getR r r| ≤ tol ∧ s.getR r r ≠ 0) :
     ∀ z : ℕ → α,
       ∑ j ∈ range s.n, (∑ k ∈ range s.qIdx, A k j * s.solveCol b x0 tol k - b j) ^ 2 ≤
       ∑ j ∈ range s.n, (∑ k ∈ range s.qIdx, A k j * z k - b j) ^ 2 :=
@@ -324,7 +324,7 @@ theorem solveCol_ls (s : LMQR α) (h : RingInv s) (A : ℕ → ℕ → α) (hA :
 /-- … and that minimiser is the only one (on the `q_idx` entries `solve_col` writes). -/
 theorem solveCol_ls_unique (s : LMQR α) (h : RingInv s) (A : ℕ → ℕ → α) (hA : Represents s A)
     (hO : Orth s) (b x0 : ℕ → α) (tol : α)
-    (hp : ∀ r < s.qIdx, ¬ |s.getR r r| < tol ∧ s.getR r r ≠ 0) (z : ℕ → α)
+    (hp : ∀ r < s.qIdx, ¬ |s.getR r r| ≤ tol ∧ s.getR r r ≠ 0) (z : ℕ → α)
     (hz : ∑ j ∈ range s.n, (∑ k ∈ range s.qIdx, A k j * z k - b j) ^ 2 ≤
           ∑ j ∈ range s.n, (∑ k ∈ range s.qIdx, A k j * s.solveCol b x0 tol k - b j) ^ 2) :
     ∀ k < s.qIdx, z k = s.solveCol b x0 tol k :=
@@ -332,8 +332,8 @@ theorem solveCol_ls_unique (s : LMQR α) (h : RingInv s) (A : ℕ → ℕ → α
     (fun i k hik => getR_upper s hik) b (s.solveCol b x0 tol)
     (fun r hr => ((solveCol_backsubst s h b x0 tol).2 r hr).2 (hp r hr).1 (hp r hr).2) z hz
 
-/-- with a positive threshold a pivot that passes it is nonzero -/
-theorem pivot_ne_zero_of_pos_tol {d tol : α} (ht : 0 < tol) (hd : ¬ |d| < tol) : d ≠ 0 := by
+/-- with a nonnegative threshold a pivot that passes it (`|d| > tol`) is nonzero -/
+theorem pivot_ne_zero_of_nonneg_tol {d tol : α} (ht : 0 ≤ tol) (hd : ¬ |d| ≤ tol) : d ≠ 0 := by
   intro h0; rw [h0, abs_zero] at hd; exact hd ht
 
 end solve
